@@ -119,7 +119,24 @@ pub fn build(ctl: &'static Ctrl, params: &Value) -> Instance {
                     ctl.enroll_co_until_done(1);
                     *shx.occ_handle.lock().unwrap() = Some(may::coroutine::current());
                     use_local(&shx, 11, "occupant");
+                    // a destructor that yields (as Park::drop does while `wait_kernel` is set): run by the unwinding
+                    struct YieldOnDrop;
+                    impl Drop for YieldOnDrop {
+                        fn drop(&mut self) {
+                            may::coroutine::yield_now();
+                        }
+                    }
+                    let _guard = if k.contains("dropyield") { Some(YieldOnDrop) } else { None };
                     match k.as_str() {
+                        "dropyield_cancel" => {
+                            // panics by itself; the cancel may be pending by then
+                            may::verif::pt("ru.block", 0, 0, 0);
+                            panic!("occupant panics");
+                        }
+                        "sleep_dropyield_cancel" => {
+                            may::verif::pt("ru.block", 0, 0, 0);
+                            may::coroutine::sleep(Duration::from_secs(3600));
+                        }
                         "park_cancel" => {
                             may::verif::pt("ru.block", 0, 0, 0);
                             let b = Blocker::current();
@@ -193,7 +210,13 @@ pub fn build(ctl: &'static Ctrl, params: &Value) -> Instance {
     }));
     actors.push(external_actor("c1"));
     actors.push(external_actor("c2"));
-    let opts = ExecOpts { cats: vec!["ru", "cq.send.check", "cq.send.yield", "cq.drop.cancel"], vclock: true, offer_tick: true, ..Default::default() };
+    // cancel_first: the occupant is held at ru.block until the cancel has been issued (the cancel is pending when it panics)
+    let holds = if params["cancel_first"].as_bool().unwrap_or(false) {
+        vec![Hold { actor: "c1".into(), site: "ru.block".into(), nth: 1, until_actor: "d".into(), until_site: "ru.cancel".into(), until_n: 1 }]
+    } else {
+        vec![]
+    };
+    let opts = ExecOpts { cats: vec!["ru", "cq.send.check", "cq.send.yield", "cq.drop.cancel"], vclock: true, offer_tick: true, holds, ..Default::default() };
     let sh4 = sh.clone();
     Instance {
         opts,
